@@ -191,17 +191,20 @@ deriving Repr, DecidableEq
 
 /-- The `n`-th `MsgRecv` (n = 0, 1, …) of a client that keeps receiving.
     `unflushed`: the stream is in ManualFlush mode and its writer holds unflushed frames at the time
-    of the call (`checkRecvFlush` then flushes first and a refused flush pre-empts the receive). -/
+    of the call.  `checkRecvFlush` (as repaired by fix 56786c9) then flushes first; the flush is
+    refused only when the send side or the stream is already finished, and a refusal on a terminated
+    stream is ignored ("the receive itself reports why the stream was terminated"), so the receive
+    proceeds either way.  (Send side closed, not terminated, and unflushed frames cannot occur
+    together: CloseSend flushes the writer and later writes are refused.) -/
 def CStream.recv (c : CStream) (unflushed : Bool) (n : Nat) : Recv :=
-  if unflushed && c.term then .eof                                    -- rawFlushLocked returns send's io.EOF
-  else
-    match c.delivered[n]? with
-    | some d => .msg d
-    | none =>
-      match c.closed with
-      | some .eof => .eof
-      | some (.err e) => .error e.text (code (some e))
-      | none => .blocked
+  let _flushRefusedAndIgnored := unflushed && c.term
+  match c.delivered[n]? with
+  | some d => .msg d
+  | none =>
+    match c.closed with
+    | some .eof => .eof
+    | some (.err e) => .error e.text (code (some e))
+    | none => .blocked
 
 /-- everything together: the client's view of an RPC whose server side runs handler `h` -/
 def clientOf (h : Handler) (clientClosedSend : Bool) : CStream :=
